@@ -101,6 +101,41 @@ func runCase(r *mon.Run, c gen.EdCase) {
 				r.Violate(fmt.Sprintf("cache.VerifyWithOptions/%s/want=%v", reason, want), fmt.Sprintf("flags=%+v family=%s: got=%v panic=%v(%s) want=%v", flags, c.Fam, got3, pan3, pmsg3, want), c)
 			}
 		}
+		// fourth entry point: the batch verifier's per-entry decisions (plain and expanded adds of this one case in one
+		// batch). Every variant with a context or a pre-hash, and one pure case in four
+		if len(pk) == 32 && (c.Variant != 0 || (int(caseSel)+fl)%4 == 1) {
+			var all bool
+			var bits []bool
+			n := 1
+			panB, pmsgB := mon.Try(func() {
+				bv := ed25519.NewBatchVerifier()
+				bv.AddWithOptions(pk, msg, sig, opts)
+				if expErr == nil {
+					bv.AddExpandedWithOptions(exp, msg, sig, opts)
+					n = 2
+				}
+				all, bits = bv.Verify(nil)
+			})
+			r.Eval(nil)
+			r.Hist(fmt.Sprintf("batch-entry-point/v%d", c.Variant))
+			switch {
+			case wantPanic:
+				// incompatible options: the batch may panic or report the entries invalid, it must never accept
+				if !panB && (all || (len(bits) > 0 && bits[0]) || (len(bits) > 1 && bits[1])) {
+					r.Violate("BatchVerifier/incompatible-options-accepted", fmt.Sprintf("flags=%+v family=%s: all=%v bits=%v", flags, c.Fam, all, bits), c)
+				}
+			case panB:
+				r.Violate("BatchVerifier/panic", fmt.Sprintf("flags=%+v family=%s: %s", flags, c.Fam, pmsgB), c)
+			default:
+				bad := len(bits) != n || all != want
+				for _, b := range bits {
+					bad = bad || b != want
+				}
+				if bad {
+					r.Violate(fmt.Sprintf("BatchVerifier.Verify/%s/want=%v", reason, want), fmt.Sprintf("flags=%+v family=%s: all=%v bits=%v want=%v (entries: AddWithOptions, AddExpandedWithOptions)", flags, c.Fam, all, bits, want), c)
+				}
+			}
+		}
 		if fl == stdLibFlags {
 			// second, independent oracle: Go's own implementation
 			so := &stded.Options{Context: string(mon.UnHex(c.Ctx))}
